@@ -515,8 +515,8 @@ def rule_r6_extent(ctx: Ctx) -> None:
 def rule_r7_keys(ctx: Ctx) -> None:
     from . import approx_keys
 
-    ctx.rule("C02.R7", "the layout definitions identify no length set / type by its approximate equality (no de-duplication, dict key, set member or memo keyed by BitLengthSet / SerializableType equality)", min_instances=1)
-    approx_keys.rule(ctx, "C02.R7", ["_bit_length_set._bit_length_set", "_serializable"], "two different length sets (or two types with different layouts) may compare equal: a variant / field dropped or looked up by equality changes the set of possible lengths", "pydsdl/_serializable/_composite.py")
+    ctx.rule("C02.R7", "the layout definitions and everything they reach (constructors, bit_length_set / alignment / extent, the aggregators, the BitLengthSet compositions) identify no length set / type by its approximate equality (no de-duplication, dict key, set member or memo keyed by BitLengthSet / SerializableType equality)", min_instances=1)
+    approx_keys.rule(ctx, "C02.R7", ["_serializable"], "two different length sets (or two types with different layouts) may compare equal: a variant / field dropped or looked up by equality changes the set of possible lengths", "pydsdl/_serializable/_composite.py", roots=["__init__", "bit_length_set", "alignment_requirement", "extent", "aggregate_bit_length_sets", "inner_type", "length_field_type", "tag_field_type", "delimiter_header_type"], min_reached=40)
 
 
 def run(ctx: Ctx) -> None:
